@@ -5,8 +5,13 @@ import (
 	"errors"
 	"fmt"
 	"math/big"
+	"sort"
 	"strings"
 
+	basicpb "github.com/google/fhir/go/proto/google/fhir/proto/r4/core/resources/basic_go_proto"
+	bcrpb "github.com/google/fhir/go/proto/google/fhir/proto/r4/core/resources/bundle_and_contained_resource_go_proto"
+	dtpb "github.com/google/fhir/go/proto/google/fhir/proto/r4/core/datatypes_go_proto"
+	"google.golang.org/protobuf/types/known/anypb"
 	"github.com/verily-src/fhirpath-go/fhirpath"
 	"github.com/verily-src/fhirpath-go/fhirpath/system"
 	"github.com/verily-src/fhirpath-go/fhirpath/verifharness/core"
@@ -31,13 +36,13 @@ func init() {
 			"collections whose items have different types are only navigated by names valid on every item type",
 		},
 		Run:    runC02,
-		Checks: map[string]func(*core.Env, []json.RawMessage){"resource": replayC02},
+		Checks: map[string]func(*core.Env, []json.RawMessage){"resource": replayC02, "mixed": replayC02Mixed},
 		Threshold: func(m *core.Merged) []string {
 			var r []string
 			if m.Cover["types"] < 146 {
 				r = append(r, fmt.Sprintf("only %d resource-type instances walked", m.Cover["types"]))
 			}
-			for _, k := range []string{"path-compared", "indexed-compared", "filtered-compared", "value-of-temporal", "invalid-name", "absent-name", "wrong-root", "choice-step", "contained-step", "typed-reference", "primitive-value", "temporal-value"} {
+			for _, k := range []string{"path-compared", "indexed-compared", "filtered-compared", "value-of-temporal", "mixed-type-container", "mixed-type-step", "invalid-name", "absent-name", "wrong-root", "choice-step", "contained-step", "typed-reference", "primitive-value", "temporal-value"} {
 				if m.Cover[k] == 0 {
 					r = append(r, "never observed: "+k)
 				}
@@ -61,6 +66,39 @@ func runC02(env *core.Env) {
 			c02Resource(env, string(md.Name()), env.Seed*1000+uint64(k), rich)
 		}
 	}
+	// Bundles / contained lists mixing resource types that share a backbone element name
+	gnames, groups := backboneGroups()
+	rng := env.Rng("mixed")
+	rounds := env.Size(1, 12)
+	for k := 0; k < rounds; k++ {
+		for _, gname := range gnames {
+			tl := groups[gname]
+			cnt := 2 + rng.Intn(2)
+			var tns []string
+			start := rng.Intn(len(tl))
+			for i := 0; i < cnt && i < len(tl); i++ {
+				tns = append(tns, tl[(start+i*(1+rng.Intn(3)))%len(tl)])
+			}
+			vc := rng.Intn(3) == 0
+			sd := env.Seed*1000 + uint64(k)*17 + rng.Next()%1000
+			n++
+			if env.Mine(n) {
+				c02Mixed(env, gname, tns, sd, vc)
+			}
+		}
+	}
+}
+
+func replayC02Mixed(env *core.Env, a []json.RawMessage) {
+	var group string
+	var tns []string
+	var seed uint64
+	var vc bool
+	json.Unmarshal(a[0], &group)
+	json.Unmarshal(a[1], &tns)
+	json.Unmarshal(a[2], &seed)
+	json.Unmarshal(a[3], &vc)
+	c02Mixed(env, group, tns, seed, vc)
 }
 
 func replayC02(env *core.Env, a []json.RawMessage) {
@@ -122,6 +160,97 @@ func sameTypes(nodes []*model.Node) bool {
 func c02Resource(env *core.Env, tn string, seed uint64, rich bool) {
 	defer env.In("resource", tn, seed, rich)()
 	res, _ := genResource(tn, seed, rich)
+	c02Walk(env, tn, res, seed, 400)
+}
+
+// backboneGroups maps the JSON name of a backbone element (a message nested in its resource's message)
+// to the resource types that have one of that name, for names shared by at least two types.
+func backboneGroups() (names []string, groups map[string][]string) {
+	groups = map[string][]string{}
+	for _, md := range gen.ResourceTypes() {
+		fs := md.Fields()
+		for i := 0; i < fs.Len(); i++ {
+			fd := fs.Get(i)
+			if fd.Message() == nil || fd.Message().Parent() != protoreflect.Descriptor(md) || gen.IsPrimitive(fd.Message()) || gen.IsChoice(fd.Message()) || gen.IsCodeWrapper(fd.Message()) {
+				continue
+			}
+			groups[fd.JSONName()] = append(groups[fd.JSONName()], string(md.Name()))
+		}
+	}
+	for k, v := range groups {
+		if len(v) < 2 {
+			delete(groups, k)
+			continue
+		}
+		names = append(names, k)
+	}
+	sort.Strings(names)
+	return
+}
+
+// c02Mixed walks a Bundle (or a resource's `contained` list) whose entries are resources of different types
+// that all have a backbone element of the same name: un-indexed steps then run over collections mixing
+// different message types that share element names.
+func c02Mixed(env *core.Env, group string, tns []string, seed uint64, viaContained bool) {
+	defer env.In("mixed", group, tns, seed, viaContained)()
+	var crs []*bcrpb.ContainedResource
+	for i, tn := range tns {
+		md := gen.ResourceTypeByName(tn)
+		g := gen.NewResGen(core.NewRng(seed+uint64(i), "mixed", tn), false)
+		g.NoContained = true
+		r := g.Resource(md)
+		rm := r.ProtoReflect()
+		fs := md.Fields()
+		for k := 0; k < fs.Len(); k++ {
+			fd := fs.Get(k)
+			if fd.JSONName() != group || fd.Message() == nil {
+				continue
+			}
+			g.MaxDepth, g.Fill, g.Budget = 4, 80, 60
+			if fd.IsList() {
+				l := rm.Mutable(fd).List()
+				for l.Len() < 2 {
+					if v := g.Value(fd, 1); v != nil {
+						l.Append(protoreflect.ValueOfMessage(v))
+					} else {
+						break
+					}
+				}
+			} else if !rm.Has(fd) {
+				if v := g.Value(fd, 1); v != nil {
+					rm.Set(fd, protoreflect.ValueOfMessage(v))
+				}
+			}
+		}
+		cr := &bcrpb.ContainedResource{}
+		cr.ProtoReflect().Set(gen.ContainedFieldFor(md), protoreflect.ValueOfMessage(rm))
+		crs = append(crs, cr)
+	}
+	var res fhir.Resource
+	tn := "Bundle"
+	if viaContained {
+		tn = "Basic"
+		b := &basicpb.Basic{Id: &dtpb.Id{Value: "mixed"}}
+		for _, cr := range crs {
+			a, err := anypb.New(cr)
+			if err != nil {
+				panic("harness: anypb.New: " + err.Error())
+			}
+			b.Contained = append(b.Contained, a)
+		}
+		res = b
+	} else {
+		b := &bcrpb.Bundle{Id: &dtpb.Id{Value: "mixed"}}
+		for _, cr := range crs {
+			b.Entry = append(b.Entry, &bcrpb.Bundle_Entry{Resource: cr})
+		}
+		res = b
+	}
+	env.Cover("mixed-type-container")
+	c02Walk(env, tn, res, seed, 2500)
+}
+
+func c02Walk(env *core.Env, tn string, res fhir.Resource, seed uint64, maxPaths int) {
 	tree, err := model.BuildTree(res)
 	if err != nil {
 		env.Skip("resource-not-marshallable")
@@ -146,7 +275,7 @@ func c02Resource(env *core.Env, tn string, seed uint64, rich bool) {
 			c02ComparePath(env, tn, in, tree, cur.names, cur.nodes, rng)
 			seenPaths++
 		}
-		if len(cur.names) >= 7 || seenPaths > 400 {
+		if len(cur.names) >= 7 || seenPaths > maxPaths {
 			continue
 		}
 		// child names in first-occurrence order across the node set
@@ -168,6 +297,9 @@ func c02Resource(env *core.Env, tn string, seed uint64, rich bool) {
 			var kids []*model.Node
 			for _, n := range cur.nodes {
 				kids = append(kids, n.KidsNamed(kn)...)
+			}
+			if !sameTypes(cur.nodes) {
+				env.Cover("mixed-type-step")
 			}
 			nn := append(append([]string{}, cur.names...), kn)
 			queue = append(queue, entry{nn, kids})
